@@ -1,10 +1,12 @@
 import SuppModel.Props.C07
 #print axioms SuppModel.Props.C07.C07_relative
 #print axioms SuppModel.Props.C07.C07_relative_above
+#print axioms SuppModel.Props.C07.sameChoice_generated
 #print axioms SuppModel.Props.C07.C07_find
 #print axioms SuppModel.Props.C07.C07_find_any_suffix_order
 #print axioms SuppModel.Props.C07.C07_list_sup
 #print axioms SuppModel.Props.C07.C07_list_sub
 #print axioms SuppModel.Props.C07.C07_list
 #print axioms SuppModel.Props.C07.C07_split_witness
+#print axioms SuppModel.Props.C07.C07_ext_witness
 #print axioms SuppModel.Props.C07.C07_find_stmt_false
